@@ -11,7 +11,6 @@ from vlib import refcal as R
 from vlib.runner import Outcome
 
 PID = "C03"
-HISTORY_SENSITIVE = True     # memoised helpers: keep the shard history
 RULE = (
     "case = (mode spelling, year): every day of that year is enumerated and "
     "all six module-level conversions, the TimePoint get_*/to_* methods, "
